@@ -162,6 +162,31 @@ func renderMpcl(mc *mpCase) string {
 			x, y := name(s.X), name(s.Y)
 			n := def(types[s.X-1])
 			fmt.Fprintf(&body, "\t%s := %s\n\tfor i := 0; i < %d; i++ {\n\t\t%s = %s %s %s\n\t}\n", n, x, s.C, n, n, s.Op, y)
+		case "loopret":
+			x, y := name(s.X), name(s.Y)
+			n := def(types[s.X-1])
+			fmt.Fprintf(&body, "\t%s := %s\n\tfor i := 0; i < %d; i++ {\n\t\tif i == %d {\n\t\t\treturn %s\n\t\t}\n\t\t%s = %s %s %s\n\t}\n", n, x, s.C, s.Z, n, n, n, s.Op, y)
+		case "looprc":
+			x, y, c := name(s.X), name(s.Y), name(s.Z)
+			n := def(types[s.X-1])
+			fmt.Fprintf(&body, "\t%s := %s\n\tfor i := 0; i < %d; i++ {\n\t\tif %s {\n\t\t\treturn %s\n\t\t}\n\t\t%s = %s %s %s\n\t}\n", n, x, s.C, c, n, n, n, s.Op, y)
+		case "nest":
+			x, y := name(s.X), name(s.Y)
+			n := def(types[s.X-1])
+			fmt.Fprintf(&body, "\t%s := %s\n\tfor i := 0; i < %d; i++ {\n\t\tfor j := 0; j < 2; j++ {\n\t\t\t%s = %s %s %s\n\t\t}\n\t}\n", n, x, s.C, n, n, s.Op, y)
+		case "loopi":
+			x := name(s.X)
+			t := types[s.X-1]
+			n := def(t)
+			fmt.Fprintf(&body, "\t%s := %s\n\tfor i := 0; i < %d; i++ {\n\t\t%s = %s %s %s(i)\n\t}\n", n, x, s.C, n, n, s.Op, t.s)
+		case "shadow":
+			x, y, c := name(s.X), name(s.Y), name(s.Z)
+			t := types[s.X-1]
+			n := def(t)
+			g := "g" + n
+			helpers["var "+g] = fmt.Sprintf("var %s %s = 0\n", g, t.s)
+			// (`g := x` is refused by the compiler when g exists at package level: "no new variables")
+			fmt.Fprintf(&body, "\tvar %s %s = %s\n\tvar %st %s = %s\n\tif %s {\n\t\t%st = %st + 1\n\t}\n\t%s := %s + %st\n", g, t.s, x, n, t.s, y, c, n, n, n, g, n)
 		case "arr":
 			x, y, z := name(s.X), name(s.Y), name(s.Z)
 			et := types[s.X-1].s
@@ -240,6 +265,8 @@ func renderMpcl(mc *mpCase) string {
 		pre.String(), mc.Ta.String(), mc.Tb.String(), mc.Rt.String(), body.String(), name(mc.Ret))
 }
 
+var c03KnownRefusal = regexp.MustCompile(`invalid types: int[0-9]+ \S+ int[0-9]+$`)
+
 func kindsOf(mc *mpCase) string {
 	m := map[string]bool{}
 	for _, s := range mc.Stmts {
@@ -271,6 +298,12 @@ func c03Check(res *Result, mc *mpCase, params *utils.Params, cfg string) {
 		if res.Class == "" {
 			res.Class = "rejected"
 			res.Sample = map[string]string{"src": src, "error": err.Error()}
+			// The one thing the compiler is known to refuse in generated programs is a signed operand narrower than
+			// 32 bits next to a negative literal ("invalid types: int3 - int32").  Any other refusal of a program of
+			// the modelled core means there is no circuit that computes what the program means.
+			if !c03KnownRefusal.MatchString(err.Error()) {
+				res.viol("refused:"+kindsOf(mc), "the compiler refuses a program of the modelled core (%s): %v\n%s", cfg, err, src)
+			}
 		}
 		return
 	}
